@@ -43,7 +43,7 @@ CLAIMED["C08"] = {
     "engine": "E-CFG/E-TERM",
     "technique": "static analysis: per-arm read widths, provenance of the stored size, dominance/path checks of size test, final equality and end-marker acceptance (MIR facts)",
     "design_ref": "DESIGN.md section 4 / C08",
-    "text": "Decides statically: LzmaParams.unpacked_size and DecoderState.unpacked_size are written (or lent mutably) only by read_header / the constructors / set_unpacked_size; read_header consumes 13/13/5 bytes per option (resolved read widths, through local helpers); the size in effect depends only on the header field resp. only on the caller's value per option arm; the size test opens every round of the decoding loop (ordering comparison); with a size in effect every Finish-mode success (from the Some edge of every test of the size, including the end-marker exit of the loop) passes a test whose truth table is produced == size and whose mismatch edge is Err; the streaming API's final pass is skipped by allow_incomplete only and its header staging loses nothing whatever the option's header length; the end marker is accepted only behind distance == 0xFFFF_FFFF and a true is_finished_ok (code == 0 and end of input); match lengths handed to the window never depend on the size in effect. Declined: that the produced count equals the declared one for a given stream (value-level).",
+    "text": "Decides statically: LzmaParams.unpacked_size and DecoderState.unpacked_size are written (or lent mutably) only by read_header / the constructors / set_unpacked_size; read_header consumes 13/13/5 bytes per option (resolved read widths, through local helpers); the size in effect depends only on the header field resp. only on the caller's value per option arm; the size test opens every round of the decoding loop (ordering comparison); with a size in effect every Finish-mode success (from the Some edge of every test of the size, including the end-marker exit of the loop) passes a test whose truth table is produced == size and whose mismatch edge is Err; the streaming API's final pass is skipped by allow_incomplete only and its header staging loses nothing whatever the option's header length; the end marker is accepted only behind distance == 0xFFFF_FFFF and a true is_finished_ok (code == 0 and end of input), and that test exists in the symbol decoder on rep[0] (shared C01.R2 clause); match lengths handed to the window never depend on the size in effect. Declined: that the produced count equals the declared one for a given stream (value-level).",
     "note": "Trusts rustc's MIR.",
 }
 CLAIMED["C11"] = {
@@ -64,7 +64,7 @@ CLAIMED["C14"] = {
     "engine": "E-CFG/E-TERM",
     "technique": "static sibling agreement: per-field provenance terms of reset_state vs constructor (field list from the ADT), dominance of reset_state in the reset entry points",
     "design_ref": "DESIGN.md section 4 / C14",
-    "text": "Decides statically: for every field of the decoder state (taken from the ADT definition, so a new field becomes an obligation) reset_state stores on every path the same value the constructor builds (an in-place reset method is compared recursively with the field type's constructor, element loops must cover the whole array), with two documented exceptions; the size in effect is written only by the constructors and set_unpacked_size; every other field of LzmaDecoder / Lzma2Decoder is configuration (never written after construction) or restored by reset; the literal table is refilled or re-created on both branches; LzmaDecoder::reset / Lzma2Decoder::reset call reset_state unconditionally with the constructor's properties; sizes cannot leak across LZMA2 resets; window and range decoder are per-call locals.",
+    "text": "Decides statically: for every field of the decoder state (taken from the ADT definition, so a new field becomes an obligation) reset_state stores on every path the same value the constructor builds (an in-place reset method is compared recursively with the field type's constructor, element loops must cover the whole array), with two documented exceptions; the size in effect is written only by the constructors and set_unpacked_size; every other field of LzmaDecoder / Lzma2Decoder is configuration (never written after construction) or restored by reset; the literal table is refilled or re-created on both branches; LzmaDecoder::reset / Lzma2Decoder::reset call reset_state unconditionally with the constructor's properties; sizes cannot leak across LZMA2 resets; the construction-time copy of the size in LzmaParams is read only to build the decoder state (it is stale after reset(Some(size))); window and range decoder are per-call locals.",
     "note": "Trusts rustc's MIR.",
 }
 
@@ -72,14 +72,14 @@ CLAIMED["C09"] = {
     "engine": "E-CFG/E-TERM",
     "technique": "static analysis: distance guards located by operand provenance in every implementor of the window trait, Err-only failing edges, dominance over every buffer access; field privacy",
     "design_ref": "DESIGN.md section 4 / C09",
-    "text": "Decides statically for both window implementations (enumerated from the impl list): last_n and append_lz test dist > bytes produced (and dist > dict_size for the circular window), the failing edges reach only Err, and the tests dominate every access to the buffer and every append in the function; the guards are decided by truth table (reject exactly dist > bound) and may live in a ?-applied helper; the buffer field is private to the window module, the symbol decoder uses only the guarded trait methods and propagates last_n's verdict with ?; the circular copy reads at the wrapped running offset; the dictionary bound is max(header field, 4096) (C01.R1 evaluation); the LZMA2 window is emptied (buf cleared, len zeroed) at exactly the dictionary resets the format prescribes (C02.R1). Declined: that guarded cells hold the right bytes (value-level).",
+    "text": "Decides statically for both window implementations (enumerated from the impl list): last_n and append_lz test dist > bytes produced (and dist > dict_size for the circular window), the failing edges reach only Err, and the tests dominate every access to the buffer and every append in the function; the guards are decided by truth table (reject exactly dist > bound) and may live in a ?-applied helper; the buffer field is private to the window module, the symbol decoder uses only the guarded trait methods and propagates last_n's verdict with ?; the circular copy reads at the wrapped running offset; the dictionary bound is max(header field, 4096) (C01.R1 evaluation); the LZMA2 window is emptied (buf cleared, len zeroed) at exactly the dictionary resets the format prescribes (C02.R1); the distance handed to the window is rep[0] + 1 with nothing else applied (shared C01.R2 clause). Declined: that guarded cells hold the right bytes (value-level).",
     "note": "Trusts rustc's MIR and privacy checking.",
 }
 CLAIMED["C10"] = {
     "engine": "E-CFG/E-TERM",
-    "technique": "static analysis: provenance of the limit argument, who-may-grow enumeration with dominance of the limit test, equality of tested and grown length, who-reads enumeration",
+    "technique": "static analysis: provenance of the limit argument, who-may-grow enumeration with dominance of the limit test, equality of tested and grown length, who-reads enumeration, limit taint against the guards of every error construction",
     "design_ref": "DESIGN.md section 4 / C10",
-    "text": "Decides statically: at both constructions of the circular window (one-shot and streaming) the limit is Options.memlimit.unwrap_or(usize::MAX) with no cast, clamp or arithmetic; every call that can grow the window buffer sits on the true edge of new_len <= memlimit whose other edge is Err, and the grown length is exactly the tested index + 1; the limit is read by that guard only and only when the buffer must grow (so a sufficient limit leaves the control flow unchanged); Options.memlimit is read only by functions that construct a window. Declined: heap measurements.",
+    "text": "Decides statically: at both constructions of the circular window (one-shot and streaming) the limit is Options.memlimit.unwrap_or(usize::MAX) with no cast, clamp or arithmetic; every call that can grow the window buffer sits on the true edge of new_len <= memlimit whose other edge is Err, and the grown length is exactly the tested index + 1; the limit is read by that guard only and only when the buffer must grow (so a sufficient limit leaves the control flow unchanged); Options.memlimit is read only by functions that construct a window; no error is built behind a test on a limit-derived value (taint through fields by name and parameters by position) except at the growth test itself. Declined: heap measurements.",
     "note": "Trusts rustc's MIR.",
 }
 CLAIMED["C17"] = {
@@ -117,7 +117,7 @@ CLAIMED["C04"] = {
     "engine": "E-CFG/E-TERM",
     "technique": "static analysis: guards and emitted-byte terms of the writers extracted from MIR (flow-sensitive provenance terms) and evaluated over finite domains against the format; composition with the reader's extracted terms (inverse checks); sibling agreement encoder contexts / header; control dependence; must-pass-through",
     "design_ref": "DESIGN.md section 4 / C04",
-    "text": PARTIAL + "the LZMA2 writer emits the end byte exactly when read() returned 0 (short reads continue), chunks are control 1, big-endian n-1 (fits: buffer <= 65536) and buf[..n], and reads again afterwards; the multi-byte writer partitions on value >= 0x80 with bytes 0x80|(v&0x7F) / v and carries v >> 7 (inverse of C03.R2); the XZ block header written is 4*(size byte+1) bytes with one accepted filter id, one property byte and zero padding; writer paddings are (-count) mod 4 zero bytes; reader_term(writer_term(s)) = s for the backward size and the index record / footer size come unmodified from the counting adapters; the .lzma header's properties byte decodes to the lc/lp/pb the encoder's own context indices use, the size field is all-ones / caller's value / absent per option, the end marker is written iff the size is declared unknown with the format's 1+1+4+6+30 bits and in the position state of the number of bytes encoded (gated evaluation for 10 lengths), every Ok finish flushes; encode_bit's stores to low/range and encode_literal's MSB-first bit and tree recurrence evaluate to the reference; range-encoder constants (11-bit probabilities, shift 5 for all 2047 probabilities, top 2^24, 5-byte flush, initial state, carry constants) are the decoder's. Declined (not static): that the range-coded payload round-trips for every input (carry propagation, 2^32-range numerics), interoperability of the payload.",
+    "text": PARTIAL + "the LZMA2 writer emits the end byte exactly when read() returned 0 (short reads continue), chunks are control 1, big-endian n-1 (fits: buffer <= 65536) and buf[..n], and reads again afterwards; the multi-byte writer partitions on value >= 0x80 with bytes 0x80|(v&0x7F) / v and carries v >> 7 (inverse of C03.R2); the XZ block header written is 4*(size byte+1) bytes with one accepted filter id, one property byte and zero padding; writer paddings are (-count) mod 4 zero bytes; reader_term(writer_term(s)) = s for the backward size and the index record / footer size come unmodified from the counting adapters; the .lzma header's properties byte decodes to the lc/lp/pb the encoder's own context indices use, the size field is all-ones / caller's value / absent per option, the end marker is written iff the size is declared unknown with the format's 1+1+4+6+30 bits and in the position state of the number of bytes encoded (gated evaluation for 10 lengths), every Ok finish flushes; encode_bit's stores to low/range and encode_literal's MSB-first bit and tree recurrence evaluate to the reference; range-encoder constants (11-bit probabilities, shift 5 for all 2047 probabilities, top 2^24, 5-byte flush, initial state, carry constants) are the decoder's; the carry flush of write_low hands the sink single bytes whose values are exactly cache + carry first and 0xFF + carry afterwards (evaluated, wrapping in u8), one per decrement of cachesz until it is 0, and the new cached byte (low >> 24) is stored once, in the flush branch, after the bytes went out. Declined (not static): that the range-coded payload round-trips for every input (2^32-range numerics), interoperability of the payload.",
     "note": "Trusts rustc's MIR; constants in rules/C04.py transcribe the formats; evaluates extracted expression terms (not the program).",
 }
 
@@ -132,7 +132,7 @@ CLAIMED["C15"] = {
     "engine": "E-CFG/E-TERM",
     "technique": "static who-may-emit enumeration with control dependence on the update flag; shared C05 rules (commit protocol, staged-slice provenance, refill guard evaluation); who-reads enumeration and control dependence / must-pass-through of allow_incomplete in Stream::finish (MIR facts)",
     "design_ref": "DESIGN.md section 4 / C15",
-    "text": PARTIAL + "the window is extended only by append calls of the symbol decoder under update = true (a dry run cannot emit, committed symbols are never revised); symbols are committed only after a successful dry run or with the full look-ahead; readers over staging arrays never see bytes beyond the fill position and staged bytes are neither dropped nor duplicated; the carry-over buffer is refilled whenever it has room (so the decoder lags by at most one symbol's input); allow_incomplete is read only in Stream::finish where it guards only the final end-of-stream process call, and every Ok path of the Data arm passes the window flush; window bytes reach the sink at exactly two sites (whole buffer at the wrap, [0, cursor) at finish) and cursor/len/buf of the window are written only by append_literal/set (C01.R4). Declined (not static): the 64-byte lag figure and prefix equality at value level.",
+    "text": PARTIAL + "the window is extended only by append calls of the symbol decoder under update = true (a dry run cannot emit, committed symbols are never revised); symbols are committed only after a successful dry run or with the full look-ahead; readers over staging arrays never see bytes beyond the fill position and staged bytes are neither dropped nor duplicated; the carry-over buffer is refilled whenever it has room (so the decoder lags by at most one symbol's input); allow_incomplete is read only in Stream::finish where it guards only the final end-of-stream process call, and every Ok path of the Data arm passes the window flush; window bytes reach the sink at exactly two sites (whole buffer at the wrap, [0, cursor) at finish) and cursor/len/buf of the window are written only by append_literal/set (C01.R4); across write calls the range-decoder state and the staged bytes are carried and the Data arm decodes staged bytes before, and separately from, the new input (shared C05.R6). Declined (not static): the 64-byte lag figure and prefix equality at value level.",
     "note": "Trusts rustc's MIR.",
 }
 NOT_APPLICABLE = {}
